@@ -165,6 +165,8 @@ def gen_mul(a, b):
             return pt(a.mul(vec_of(b)))
         if kb == 'unit':
             return a.mul(b[0])
+        if kb == 'rotmat':
+            return a.mul(b[0])
     if ka == 'rotmat':
         return gen_mul(a[0], b)
     if ka == 'vec' and kb == 'mat':
